@@ -223,6 +223,26 @@ CLAIMED = {
         "technique": "Coq proof (filtering commutes with the stable sort; direct/inverse code paths related by a swap) + "
                      "differential correspondence + metamorphic oracle",
     },
+    "C15": {
+        "text": "Machine-checked proofs (7 theorems, closed under the global context) about an executable model of the "
+                "endpoint path -- result reader, token tuning, per-node cache with its local graph, depth-1 traversal, "
+                "class/selector queries with LIMIT, the tracker's early stop -- with the endpoint's answer order and "
+                "the set-to-list order as oracle arguments: for all graphs of C15_dom, all modes and both cache settings "
+                "the triples delivered to each pass are, as multisets, the neighbourhoods of the targets "
+                "(C15_triples), the cache never changes what is delivered (C15_cache_same_result), the cached query log "
+                "is a subsequence of the uncached one with no node fetched twice (C15_cache_log_partial), and the "
+                "delivered triples are the restriction of G the local feature pass considers (C15_equals_local_partial; "
+                "equality of the shapes then rests on C09's permutation invariance).  Tied to /repo by exact "
+                "query-sequence and delivered-triple correspondence against an in-process rdflib-backed endpoint and a "
+                "metamorphic oracle endpoint vs local extraction.",
+        "design": "DESIGN.md sections 0a, 7 (C15), 11",
+        "note": "Partial: (c) not for capped target_classes; shapes equality composes with C09 informally.  Six findings "
+                "C15-F1..F6 (F2 inside the property's domain: with inverse paths a statement linking two targets is "
+                "delivered and counted twice).  The HTTP client is replaced by monkey-patching "
+                "shexer.io.sparql.query._query_endpoint_json_result; rdflib evaluates the query text (trusted).",
+        "technique": "executable Gallina model with oracle arguments; cache invariant by induction over requests; "
+                     "differential correspondence on exact query/triple sequences; metamorphic oracle",
+    },
     "C16": {
         "text": "Machine-checked proofs (Coq 8.16.1, closed) that the tracker model with a cap lists per class exactly "
                 "the first min(k,|class|) instances in both target modes (early stop proved harmless), equals the "
